@@ -3,6 +3,7 @@ from __future__ import annotations
 
 import json
 import random
+import zlib
 from pathlib import Path
 
 import codec
@@ -21,6 +22,10 @@ RULE = (
     "(a permuted subset of the same types, possibly empty), read once, then its REGISTERS is re-assigned (on the class "
     "that is read or on the class that declared it) or edited in place to the case's declaration, and only then the "
     "observed read is made — the expectation is the model's for the declaration in force at the observed read alone. "
+    "A further eighth of the cases reach their declaration by GROWING / EDITING the declared list after the earlier read, one "
+    "elementary list operation at a time on the list object the class holds (remove / del, insert, append, extend, +=), or by "
+    "declaring a subclass afterwards whose REGISTERS is built from the read class's (before + Parent.REGISTERS + after) and "
+    "reading through that subclass; the operations are the ones that turn the earlier declaration into the case's. "
     "non-trivial = content has at least 2 lines and at least one line matches a register; distinct by full case."
 )
 ASSUMPTIONS = [
@@ -54,6 +59,14 @@ def declare(case):
         except Exception:
             pass  # the observed operation is the read made after the re-declaration
     how = h["how"]
+    if how == "edit":
+        for op in edit_script(h["prior"], len(classes), h.get("style", {})):
+            apply_op(RF, classes, op)
+        return RF, list(classes)
+    if how == "concat_subclass":
+        a, b = run_bounds(h["prior"])
+        RF = type("RFLater", (RF,), {"REGISTERS": classes[:a] + RF.REGISTERS + classes[b:], "__slots__": []})
+        return RF, list(classes)
     if how == "assign":
         RF.REGISTERS = list(classes)
     elif how == "assign_declarer":
@@ -61,6 +74,62 @@ def declare(case):
     else:  # "inplace": the declared list object itself is edited
         RF.REGISTERS[:] = classes
     return RF, classes
+
+
+def run_bounds(prior):
+    """`prior` is a contiguous run a..b-1 of the case's types (empty: placed at the front)"""
+    return (prior[0], prior[-1] + 1) if prior else (0, 0)
+
+
+def edit_script(prior, n, style):
+    """the elementary list operations a user who declared `prior` (indices into the case's types) writes to
+    arrive at the declaration 0..n-1, computed on the user's own notion of the list: first the types that are
+    out of order are taken out (by value or by position), then the missing ones are put in from the front
+    (insert at the position), the missing tail with insert / append / extend / += as the style says"""
+    view, ops, last = list(prior), [], -1
+    for j in list(view):
+        if j > last:
+            last = j
+            continue
+        pos = view.index(j)
+        ops.append(["remove", j] if style.get("rm", "remove") == "remove" else ["del", pos])
+        del view[pos]
+    tail = style.get("tail", "append")
+    for i in range(n):
+        if i < len(view) and view[i] == i:
+            continue
+        if i < len(view) or tail == "insert":
+            ops.append(["insert", i, i])
+            view.insert(i, i)
+            continue
+        rest = list(range(i, n))
+        if tail == "append":
+            ops += [["append", j] for j in rest]
+        else:
+            ops.append([tail, rest])  # "extend" / "iadd"
+        view += rest
+        break
+    assert view == list(range(n)), (prior, n, view)
+    return ops
+
+
+def apply_op(RF, classes, op):
+    """one operation, applied to whatever list object the class holds at that moment"""
+    k = op[0]
+    if k == "remove":
+        RF.REGISTERS.remove(classes[op[1]])
+    elif k == "del":
+        del RF.REGISTERS[op[1]]
+    elif k == "insert":
+        RF.REGISTERS.insert(op[1], classes[op[2]])
+    elif k == "append":
+        RF.REGISTERS.append(classes[op[1]])
+    elif k == "extend":
+        RF.REGISTERS.extend([classes[j] for j in op[1]])
+    elif k == "iadd":
+        RF.REGISTERS += [classes[j] for j in op[1]]
+    else:
+        raise ValueError(op)
 
 
 def run_impl(case):
@@ -107,6 +176,12 @@ def history_note(case):
     h = case.get("redeclare")
     if not h:
         return ""
+    if h["how"] == "edit":
+        ops = edit_script(h["prior"], len(case["regs"]), h.get("style", {}))
+        return f"[read made after the class, first declared with REGISTERS = types {h['prior']} and read, had its declared list edited in place by {ops} (type indices), which gives all {len(case['regs'])} types in order] "
+    if h["how"] == "concat_subclass":
+        a, b = run_bounds(h["prior"])
+        return f"[read made through a subclass declared AFTER its parent (REGISTERS = types {h['prior']}) was read, with REGISTERS = types {list(range(a))} + Parent.REGISTERS + types {list(range(b, len(case['regs'])))}] "
     return f"[read made after the class, first declared with REGISTERS = types {h['prior']} and read, was re-declared ({h['how']}) with all {len(case['regs'])} types in order] "
 
 
@@ -264,7 +339,36 @@ def random_case(rng):
         case["io"] = io  # the content is read from a path on disk, in the class's declared encoding
     if rng.random() < 0.35:
         case["redeclare"] = random_history(rng, len(regs))
+    else:
+        # drawn from a stream of its own (derived from the case), so that the cases above stay what they were
+        r2 = random.Random(zlib.crc32(json.dumps(case, sort_keys=True).encode()))
+        if r2.random() < 0.2:
+            case["redeclare"] = random_growth(r2, len(regs))
     return case
+
+
+def random_growth(rng, n):
+    """the declaration is reached step by step from an earlier one that was read: in-place list operations on the
+    declared list (earlier declaration: a proper prefix half of the time, any permuted subset otherwise), or a
+    subclass declared later around the parent's list (earlier declaration: a contiguous run of the types)"""
+    if rng.random() < 0.25:
+        a = rng.randrange(0, n + 1)
+        b = rng.randrange(a, n + 1)
+        if (a, b) == (0, n):
+            b = n - 1
+        h = {"prior": list(range(a, b)), "how": "concat_subclass"}
+    else:
+        if rng.random() < 0.5:
+            prior = list(range(rng.randrange(0, n)))
+        else:
+            prior = rng.sample(range(n), rng.randrange(0, n + 1))
+            if prior == list(range(n)):
+                prior = prior[:-1]
+        h = {"prior": prior, "how": "edit",
+             "style": {"rm": rng.choice(["remove", "del"]), "tail": rng.choice(["append", "append", "extend", "iadd", "insert"])}}
+    if rng.random() < 0.2:
+        h["reads"] = 2
+    return h
 
 
 def random_history(rng, n):
